@@ -23,7 +23,7 @@ META = {
     "note": "Trusted: Lean kernel; hand-written model of shlex.split and of cmdline's quoting; Python's shlex.split as the POSIX "
     "word-splitting oracle (cross-checked against /bin/sh in the thorough tier).",
     "rule": "case = C22/C23 generator, adversarial alphabet; half of the str values are shlex-quoted so that they reach the argv "
-    "intact, append_args carries raw adversarial strings; distinct by canonical JSON; non-trivial = the executed argv has an argument "
+    "intact, append_args carries raw adversarial strings; 40% of the cases have an executable of 1-4 words given as list/tuple whose later words may contain plain spaces; distinct by canonical JSON; non-trivial = the executed argv has an argument "
     "that is empty or contains a non-alphanumeric character",
     "assumptions": ["'POSIX shell rules' = token recognition and quote removal (shlex.split(posix=True)); expansions ($, *, ~) are not splitting"],
     "trusted": ["model of ShellTask.cmdline's quoting written by hand (lean/PydraModel/Argv/Shlex.lean: cmdlineOf)"],
@@ -36,6 +36,9 @@ OBLIGATIONS = [
         "C24_reference_roundtrip",
         "C24_reference_always_roundtrip",
         "C24_cmdline_partial",
+        "C24_cmdline_multiword_partial",
+        "C24_cmdline_is_whole_argv",
+        "C24_witness_exe_words_bare",
         "C24_witness_tab",
         "C24_witness_empty",
         "C24_witness_quote",
@@ -100,12 +103,18 @@ def run_cases(ctx, cases):
             ctx.count("rule:D15")
         if any(" " in x for x in argv):
             ctx.count("argv-with-space")
+        ctx.count(f"exe-words={len(c['exe'])}")
+        if any(" " in w for w in c["exe"][1:]):
+            ctx.count("exe-word-with-space")
         ctx.judge(c, impl, model, spec_ok, nontrivial=any(x == "" or not x.isalnum() for x in argv[1:]), defect=d, what="shlex.split(cmdline) == argv at subprocess.run")
 
 
 def gen(ctx):
     rng = ctx.rng
     c = A.gen_case(rng, word=A.adv_word, blank_sep_templated=False, blank_sep_dots=True, outargs=False)
+    if rng.random() < 0.4:  # multi-word executable given as a list / tuple; its later words may carry plain spaces
+        c["exe"] = A.multiword_exe(rng)
+        c["exe_as"] = rng.choice(["list", "tuple"])
     # let half of the str values survive the re-tokenisation, so that the executed argv itself is adversarial
     for f, (j, v) in zip(c["fields"], enumerate(c["values"])):
         if f["kind"] == "str" and isinstance(v, str) and rng.random() < 0.5:
